@@ -533,15 +533,53 @@ class Mitochondria:
                 raise ValueError("Result too large")
         elif op_type is ast.Add:
             if isinstance(left, (str, bytes, list, tuple)) and isinstance(right, (str, bytes, list, tuple)):
-                if len(left) + len(right) > MAX_SEQUENCE_LENGTH:
+                if self._nested_length(left) + self._nested_length(right) > MAX_SEQUENCE_LENGTH:
                     raise ValueError("Result too large")
+        elif op_type is ast.Mod and isinstance(left, (str, bytes)):
+            # '%1000000000d' % 1 builds a gigabyte; printf-style formatting is not arithmetic
+            raise ValueError("String formatting is not supported")
         elif op_type is ast.Mult:
             if ints and left.bit_length() + right.bit_length() > MAX_INT_BITS:
                 raise ValueError("Result too large")
             for seq, count in ((left, right), (right, left)):
                 if isinstance(seq, (str, bytes, list, tuple)) and isinstance(count, int):
-                    if len(seq) * count > MAX_SEQUENCE_LENGTH:
+                    if self._nested_length(seq) * count > MAX_SEQUENCE_LENGTH:
                         raise ValueError("Result too large")
+
+    def _nested_length(self, value: Any, _memo: Any = None) -> int:
+        """Number of items of a sequence including those of nested lists/tuples.
+
+        A shared inner sequence counts every time it occurs: aggregates and
+        comparisons walk it each time, so ``[[0] * n] * n`` costs n * n.
+        """
+        if not isinstance(value, (list, tuple)):
+            return len(value)
+        memo = {} if _memo is None else _memo
+        key = id(value)
+        if key not in memo:
+            total = len(value)
+            for item in value:
+                if isinstance(item, (list, tuple)):
+                    total += self._nested_length(item, memo)
+                    if total > MAX_SEQUENCE_LENGTH:
+                        break
+            memo[key] = total
+        return memo[key]
+
+    def _check_call_arguments(self, func_name: str, args: list, kwargs: dict) -> None:
+        """Refuse calls whose cost is not bounded by the size of their arguments."""
+        values = list(args) + list(kwargs.values())
+        if any(callable(v) for v in values):
+            # e.g. max(xs, key=factorial) runs a function once per element
+            raise ValueError("Functions cannot be passed as arguments")
+        sequences = [v for v in values if isinstance(v, (str, bytes, list, tuple))]
+        if sum(self._nested_length(v) for v in sequences) > MAX_SEQUENCE_LENGTH:
+            raise ValueError("Arguments too large")
+        if func_name == 'sum':
+            # sum(list_of_lists, []) concatenates repeatedly (quadratic)
+            items = args[0] if args and isinstance(args[0], (list, tuple)) else ()
+            if any(isinstance(v, (list, tuple)) for v in items) or any(isinstance(v, (list, tuple)) for v in values[1:]):
+                raise ValueError("sum() of sequences is not supported")
 
     def _compute_node(self, node: ast.AST) -> Any:
         """Recursively compute AST nodes safely."""
@@ -584,6 +622,7 @@ class Mitochondria:
                     kwargs = {kw.arg: self._compute_node(kw.value) for kw in node.keywords}
                     if func_name == 'factorial' and args and isinstance(args[0], int) and args[0] > MAX_FACTORIAL_ARG:
                         raise ValueError("Result too large")
+                    self._check_call_arguments(func_name, args, kwargs)
                     if callable(func):
                         return func(*args, **kwargs)
                     return func  # Constants like pi, e
@@ -600,11 +639,17 @@ class Mitochondria:
 
         # Lists
         elif isinstance(node, ast.List):
-            return [self._compute_node(el) for el in node.elts]
+            items = [self._compute_node(el) for el in node.elts]
+            if self._nested_length(items) > MAX_SEQUENCE_LENGTH:
+                raise ValueError("Result too large")
+            return items
 
         # Tuples
         elif isinstance(node, ast.Tuple):
-            return tuple(self._compute_node(el) for el in node.elts)
+            items = tuple(self._compute_node(el) for el in node.elts)
+            if self._nested_length(items) > MAX_SEQUENCE_LENGTH:
+                raise ValueError("Result too large")
+            return items
 
         # Comparisons
         elif isinstance(node, ast.Compare):
